@@ -7,6 +7,7 @@ package cluster
 import (
 	"bytes"
 	"fmt"
+	"io"
 	"os"
 	"path/filepath"
 	"time"
@@ -15,6 +16,7 @@ import (
 	"github.com/uber-go/tally"
 	"github.com/uber/kraken/core"
 	"github.com/uber/kraken/lib/backend"
+	"github.com/uber/kraken/lib/backend/backenderrors"
 	"github.com/uber/kraken/lib/blobrefresh"
 	"github.com/uber/kraken/lib/hashring"
 	"github.com/uber/kraken/lib/healthcheck"
@@ -35,9 +37,9 @@ import (
 
 	"kverif/kit"
 	sclock "kverif/shim/clock"
+	simrt "kverif/sim"
 	"kverif/simhttp"
 	"kverif/simnet"
-	simrt "kverif/sim"
 )
 
 const Namespace = "ns"
@@ -103,11 +105,17 @@ type Agent struct {
 
 // Events records the network events of one peer (harness monitors read it).
 type Events struct {
-	All []*networkevent.Event
+	All  []*networkevent.Event
+	Hook func(ev *networkevent.Event) // called synchronously from kraken's producer call
 }
 
-func (e *Events) Produce(ev *networkevent.Event) { e.All = append(e.All, ev) }
-func (e *Events) Close() error                    { return nil }
+func (e *Events) Produce(ev *networkevent.Event) {
+	e.All = append(e.All, ev)
+	if e.Hook != nil {
+		e.Hook(ev)
+	}
+}
+func (e *Events) Close() error { return nil }
 
 // nopManager is a write-back manager that accepts and forgets (write-back is
 // not part of the swarm properties).
@@ -117,6 +125,26 @@ func (nopManager) Add(persistedretry.Task) error                   { return nil 
 func (nopManager) SyncExec(persistedretry.Task) error              { return nil }
 func (nopManager) Close()                                          {}
 func (nopManager) Find(interface{}) ([]persistedretry.Task, error) { return nil, nil }
+
+// emptyBackend is a storage backend that holds nothing (every lookup is
+// "blob not found"), so that unknown digests are reported as not found, as a
+// deployment with a configured backend would.
+type emptyBackend struct{}
+
+func (emptyBackend) Stat(namespace, name string) (*core.BlobInfo, error) {
+	return nil, backenderrors.ErrBlobNotFound
+}
+func (emptyBackend) Upload(namespace, name string, src io.Reader) error {
+	_, err := io.Copy(io.Discard, src)
+	return err
+}
+func (emptyBackend) Download(namespace, name string, dst io.Writer) error {
+	return backenderrors.ErrBlobNotFound
+}
+func (emptyBackend) List(prefix string, opts ...backend.ListOption) (*backend.ListResult, error) {
+	return &backend.ListResult{}, nil
+}
+func (emptyBackend) Close() error { return nil }
 
 // DefaultSched returns a scheduler configuration with kraken's logs disabled.
 func DefaultSched() scheduler.Config {
@@ -204,6 +232,7 @@ func (c *Cluster) startOrigin(i int, prev *Origin) *Origin {
 		o.PCtx = pctx
 		backends, err := backend.NewManager(backend.ManagerConfig{}, nil, backend.AuthConfig{}, stats)
 		must(err, "backend manager")
+		must(backends.Register(".*", emptyBackend{}, false), "register backend")
 		o.Backends = backends
 		mig, err := metainfogen.New(metainfogen.Config{PieceLengths: map[datasize.ByteSize]datasize.ByteSize{0: datasize.ByteSize(c.P.PieceLength)}}, cas)
 		must(err, "metainfogen")
